@@ -109,9 +109,9 @@ LEVEL_TEXT['C18'] = 'Kernel only. Unbounded deductive proof (Verus) on the real 
 NOTE['C18'] = 'Kernel only (the line reader). Trusted: Verus/Z3; the synchronous model of Read; assumed contract of slice::from_mut; await points dropped; text conversion uninterpreted. Kani part bounded (read_char: inputs <= 4 bytes, every chunking). Not covered: lexer buffer management, runner, Memory / Echo / prompt decorators, cross-process sharing of the descriptor, the backslash processing of read().'
 TECH['C18'] = 'contract-based deductive verification (Verus, Z3) of FdReader2::next_line (loop invariant over the consumed byte stream of a model descriptor) + bounded Kani harness-encoded contract of read_char (all inputs <= 4 bytes x all chunkings) on the real crate'
 
-LEVEL_TEXT['C02'] = 'Kernels only. Unbounded deductive proofs (Verus): the command search resolves a name in the POSIX order (special built-in, function, other built-in, external utility; a slash means a path) and settles the path and the not-found / unusable errors as documented; break n / continue n leave min(n, enclosing loops) loops or fail outside a loop; while / until loops hand on the first divert of condition or body with exactly one level taken off and end with the status of the last execution of their body; for loops run their body once per value in order, right after assigning it, in a Loop frame, decode break / continue the same way and have status 0 without values; case tests its items in order, runs a body only after its patterns matched or after `;&`, stops at `;;`, and has the status of the last body executed (0 if none or empty); and-or lists short-circuit left to right, ! inverts the status of commands that ended normally, if runs the branch of the first condition that held; SimpleCommand::execute runs exactly the executor of the classified target, once; a function body runs once in its own context and `return` leaves only that function; execute_function / execute_external_utility run their target at most once, only after redirections and assignments succeeded, and a utility that is not found leaves 127. Everything a command does is an opaque call observed by ghost monitors. Bounded Kani check (stacks of <= 3-4 frames) of Stack::loop_count. The statement as a whole (every program, every $?) is whole-interpreter async code and is not decided; level other because of that and of the bounded part.'
+LEVEL_TEXT['C02'] = 'Kernels only. Unbounded deductive proofs (Verus): the command search resolves a name in the POSIX order (special built-in, function, other built-in, external utility; a slash means a path) and settles the path and the not-found / unusable errors as documented; break n / continue n leave min(n, enclosing loops) loops or fail outside a loop; while / until loops hand on the first divert of condition or body with exactly one level taken off and end with the status of the last execution of their body; for loops run their body once per value in order, right after assigning it, in a Loop frame, decode break / continue the same way and have status 0 without values; case tests its items in order, runs a body only after its patterns matched or after `;&`, stops at `;;`, and has the status of the last body executed (0 if none or empty); and-or lists short-circuit left to right, ! inverts the status of commands that ended normally, if runs the branch of the first condition that held; SimpleCommand::execute runs exactly the executor of the classified target, once; the return built-in asks for Divert::Return with its operand (or $?), a function body runs once in its own context and that divert leaves only that function; execute_function / execute_external_utility run their target at most once, only after redirections and assignments succeeded, and a utility that is not found leaves 127. Everything a command does is an opaque call observed by ghost monitors. Bounded Kani check (stacks of <= 3-4 frames) of Stack::loop_count. The statement as a whole (every program, every $?) is whole-interpreter async code and is not decided; level other because of that and of the bounded part.'
 NOTE['C02'] = 'Kernels only (command search order; break/continue levels; while/until/for/case; and-or, !, if; simple-command dispatch; function call, external utility). Trusted: Verus/Z3, Kani/CBMC; ghost views on the environment traits; search_path assumed; loop_count assumed in Verus and bounded-checked in Kani; opaque callees behind ghost monitors; RAII of frame / context / redirection guards assumed; await points dropped. Not covered: pattern matching inside case, multi-command pipelines and subshells, built-in execution, exit, Env::builtin, PATH walking.'
-TECH['C02'] = 'contract-based deductive verification (Verus, Z3) of classify / search / resolve_builtin, break/continue run, Loop::iterate / Loop::execute, for_loop::execute, case::execute, evaluate_condition / Pipeline::execute / AndOrList::execute / if execute, SimpleCommand::execute, execute_function_body / execute_function / execute_external_utility (opaque callees observed by ghost monitors) + bounded Kani harness-encoded contract of Stack::loop_count on the real crate'
+TECH['C02'] = 'contract-based deductive verification (Verus, Z3) of classify / search / resolve_builtin, break/continue run, return::main, Loop::iterate / Loop::execute, for_loop::execute, case::execute, evaluate_condition / Pipeline::execute / AndOrList::execute / if execute, SimpleCommand::execute, execute_function_body / execute_function / execute_external_utility (opaque callees observed by ghost monitors) + bounded Kani harness-encoded contract of Stack::loop_count on the real crate'
 
 LEVEL_TEXT['C17'] = 'Eligibility kernel only. Unbounded deductive proof (Verus) that Parser::substitute_alias replaces exactly the eligible tokens (unquoted literal word token; alias of that name exists; not already inside its own replacement; command position, global alias or after a blank-ending alias value) and that the recursion guard Source::is_alias_for is membership in the chain of alias origins, for chains of every depth. Termination and the resulting token sequence depend on the lexer splice and the async restart protocol and are not decided; level other because the claim is a kernel.'
 NOTE['C17'] = 'Eligibility kernel only. Trusted: Verus/Z3; ghost-map model of the glossary; reduced models of Word / Location / Source; lexer calls external_body. Not covered: LexerCore::substitute_alias (splice), restart protocol, keyword recognition in replacement text, alias/unalias built-ins.'
